@@ -116,6 +116,7 @@ def sync_level(scr, tier, prop, prefix, plan, replay_file=None):
     """plan: dict(mc=[(module,cfg,expect_violation)], beh=[(module,cfg,converter,quota)],
     pkg=..., core=predicate(scenario) -> bool for scenarios always kept)."""
     rng = random.Random(vlib.seed())
+    prefix = os.environ.get("VERIF_PREFIX", prefix)      # debugging aid: look at another property's monitors
     tlc_runs = []
     states = trans = 0
     scenarios = []
